@@ -322,6 +322,18 @@ func genKv(r *rand.Rand, tier string) kvInput {
 			exists["s1.c2"] = true
 		case x == 3 || x == 8:
 			in.Ops = append(in.Ops, Step{Kind: "expire", Clock: next()})
+		case x >= 11 && x <= 14:
+			st := Step{Kind: "query", Coll: pick(r, live), Handle: r.Intn(in.Handles), Q: pick(r, []string{"QIds", "QBodies", "QCount", "QIdEq", "QBodyA1", "QXattrRev", "QSync", "QLast2"}), Clock: next()}
+			if st.Coll == "s1.c2" {
+				st.Handle = 0
+			}
+			switch st.Q {
+			case "QIdEq":
+				st.Arg = pick(r, kvKeys)
+			case "QXattrRev":
+				st.Arg = pick(r, []string{"1-a", "2-b"})
+			}
+			in.Ops = append(in.Ops, st)
 		case x == 9 && in.OnDisk:
 			in.Ops = append(in.Ops, Step{Kind: "reopen", Clock: next()})
 		case x >= 4 && x <= 7:
